@@ -107,7 +107,7 @@ def r1b(cx):
 @RS.rule('C14.R2', 'K-PASS', 'pipeline child: every pipe end is closed or dup2-ed then closed before the command runs')
 def r2(cx):
     F = cx.F
-    body = F.body('yash_semantics::command::pipeline::PipeSet::move_to_stdin_stdout')
+    body = F.inlined(F.body('yash_semantics::command::pipeline::PipeSet::move_to_stdin_stdout'))
     cx.fn(body.fn)
     du = Q.DefUse(body)
     closes = Q.find_calls(body, CLOSE)
@@ -303,7 +303,7 @@ def r5(cx):
 def r2c(cx):
     import json as _json
     F = cx.F
-    body = F.body('yash_semantics::command::pipeline::PipeSet::move_to_stdin_stdout')
+    body = F.inlined(F.body('yash_semantics::command::pipeline::PipeSet::move_to_stdin_stdout'))
     cx.fn(body.fn)
     du = Q.DefUse(body)
     closes = Q.find_calls(body, CLOSE)
